@@ -151,6 +151,7 @@ type opRun struct {
 	cancelledWaiting bool // its context ended while it was parked waiting for queue space
 	inPos   int // position in the parsed stream (-1 = absent)
 	touched bool // the writer itself called the transport during this op (sync mode)
+	hadExc  bool // an exception was raised on the writer's goroutine during this (message) op
 }
 
 type probe struct {
@@ -287,6 +288,21 @@ func (o *opRun) present() bool {
 		}
 	}
 	return true
+}
+
+// flushedAll: every byte of the call has been flushed (a Flush that fails after a successful Write leaves the
+// bytes on the transport; on a channel that is closing the failure is not reported to anybody)
+func (w *chanWorld) flushedAll(o *opRun) bool {
+	_, fl, _ := w.tr.Lens()
+	off := 0
+	end := 0
+	for _, ck := range w.parsed {
+		off += len(ck.data)
+		if ck.op == o {
+			end = off
+		}
+	}
+	return end <= fl
 }
 
 func (o *opRun) anyPresent() bool {
@@ -529,6 +545,11 @@ func (w *chanWorld) writerMain(ws WriterSpec) func() {
 			op.n, op.err = n, err
 			op.callerNil = err == nil
 			op.res = classify(n, len(op.payload), err)
+			if isMsgKind(op.spec.Kind) {
+				w.mapMu.Lock()
+				op.hadExc = w.excOn[ws.Name] != nil
+				w.mapMu.Unlock()
+			}
 			if op.spec.Kind == "M" && err == nil {
 				w.mapMu.Lock()
 				ex := w.lowErr[ws.Name]
@@ -1289,7 +1310,8 @@ func runChanCase(c *ChanCase) *ChanResult {
 					w.parse()
 					good := op.accepted == len(op.chunks)
 					if c.QSize == 0 {
-						good = op.present()
+						// (a failed Flush after a successful Write leaves the bytes on the transport and raises)
+						good = op.present() && !op.hadExc && w.flushedAll(op)
 					}
 					if !good {
 						op.res = "mexc"
